@@ -538,3 +538,55 @@ def array_layouts(tier, rng, rep):
                     rep.case(key=(t, shape, m, lname), nontrivial=nontriv, sample=inp if (t, shape, m, lname) == (0, (3, 4), "poincare", "fortran_order") else None)
                     if len(rep.failures) >= 3:
                         return
+
+
+@bounded(P, "rescaled_tangent_vectors", functions=[H + "TangentVector.angle", H + "TangentVector.normalized", H + "TangentVector.point_along", H + "TangentVector.origin_to", H + "project_to_hyperboloid"],
+         note="tangent vectors whose units (x, v) are multiplied by independent non-zero factors (both signs; the two operands of angle() by different factors): the angle, the point reached "
+              "along the vector and the isometry built from it do not change; ground truth: vectors (0, cos a, sin a), (0, cos b, sin b) at the origin make the angle |a - b|, isometries preserve it")
+def rescaled_tangent_vectors(tier, rng, rep):
+    N = 150 if tier == 'thorough' else 40
+    rep.rule = "n = 2, 3; tangent vectors at the origin moved by a random isometry; factors in +-[0.1, 10], independent per operand and per unit; single vectors and composites of 3; vectors of non-unit length and with a component along the basepoint"
+    rep.bound = f"{N} pairs x 4 factor patterns"
+    for t in range(N):
+        n = 2 + t % 2
+        shape = () if t % 3 else (3,)
+        a, b = rng.uniform(0, 2 * np.pi, size=shape), rng.uniform(0, 2 * np.pi, size=shape)
+        theta = np.abs(((a - b) + np.pi) % (2 * np.pi) - np.pi)
+        def vec(ang):
+            out = np.zeros(shape + (n + 1,)); out[..., 1], out[..., 2] = np.cos(ang), np.sin(ang)
+            return out
+        g = h.Point((lambda w: w / np.linalg.norm(w) * rng.uniform(0.1, 0.8))(rng.normal(size=n)), model="klein").origin_to() @ h.Isometry.standard_rotation(rng.uniform(0, 6), dimension=n)
+        Mg = np.asarray(g.proj_data, dtype=float)
+        o = np.zeros(shape + (n + 1,)); o[..., 0] = 1
+        x, v1, v2 = o @ Mg, vec(a) @ Mg, vec(b) @ Mg
+        for pattern in ("unit", "positive", "mixed_signs", "with_basepoint_component"):
+            if pattern == "unit":
+                c1 = c2 = np.ones(shape + (1,))
+            elif pattern == "positive":
+                c1, c2 = 10 ** rng.uniform(-1, 1, size=shape + (1,)), 10 ** rng.uniform(-1, 1, size=shape + (1,))
+            else:
+                c1 = rng.choice([-1, 1], size=shape + (1,)) * 10 ** rng.uniform(-1, 1, size=shape + (1,))
+                c2 = rng.choice([-1, 1], size=shape + (1,)) * 10 ** rng.uniform(-1, 1, size=shape + (1,))
+            w1, w2 = v1.copy(), v2.copy()
+            if pattern == "with_basepoint_component":
+                w1, w2 = 2.0 * v1 + 0.7 * x, 0.3 * v2 - 1.1 * x
+            inp = {"n": n, "shape": list(shape), "pattern": pattern, "factors": [c1.ravel().tolist(), c2.ravel().tolist()], "angle": np.asarray(theta).tolist()}
+
+            def body():
+                T1 = h.TangentVector(h.Point((c1 * x).copy()), (c1 * w1).copy())
+                T2 = h.TangentVector(h.Point((c2 * x).copy()), (c2 * w2).copy())
+                got = np.asarray(T1.angle(T2), dtype=float)
+                if got.shape != np.shape(theta) or not np.all(np.abs(got - theta) <= 1e-6):
+                    rep.fail("angle_independent_of_representatives", f"{pattern}: angle {got.tolist()}, the vectors make the angle {np.asarray(theta).tolist()}", inp); return
+                got2 = np.asarray(T2.angle(T1), dtype=float)
+                if not np.all(np.abs(got2 - theta) <= 1e-6):
+                    rep.fail("angle_independent_of_representatives", f"{pattern}: angle with the operands exchanged {got2.tolist()} vs {np.asarray(theta).tolist()}", inp); return
+                # the point reached along the (rescaled) vector
+                ref = h.TangentVector(h.Point(x.copy()), v1.copy()).point_along(0.8).coords("klein")
+                y = T1.point_along(0.8).coords("klein") if pattern != "with_basepoint_component" else h.TangentVector(h.Point((c1 * x).copy()), (c1 * v1).copy()).point_along(0.8).coords("klein")
+                if not np.all(np.abs(np.asarray(y) - np.asarray(ref)) <= 1e-7):
+                    rep.fail("point_along_independent_of_representatives", f"{pattern}", inp); return
+            rep.attempt("entry_point_runs", inp, body)
+            rep.case(key=(t, pattern), nontrivial=pattern != "unit", sample=inp if (t, pattern) == (0, "mixed_signs") else None)
+            if len(rep.failures) >= 3:
+                return
